@@ -226,8 +226,11 @@ def check_ugla(ctx, variants):
     D = np.asarray(x._diff_op.get_matrix().todense(), dtype=float) if hasattr(x, "_diff_op") else None
     if D is not None and not np.array_equal(D, L.inp(case["D"])):
         raise L.MachineryError("LMRF difference operator is not the zero-boundary first-order stencil assumed by the spec (see C20)")
-    ifaces = [("experimental", lambda: _exp_sampler(cuqi.experimental.mcmc.UGLA, post, xk, beta=beta), _exp_draw),
-              ("legacy", lambda: cuqi.sampler.UGLA(post, x0=xk.copy(), maxit=MAXIT, tol=TOL, beta=beta), _legacy_draw)]
+    # the samplers are CONSTRUCTED at another point (other differences D z, hence other weights) and only then moved to
+    # x_k: the local Gaussian must be the one "at the current state", not the one at the initial point
+    x_init = xk + np.arange(1.0, n + 1.0)
+    ifaces = [("experimental", lambda: _exp_sampler(cuqi.experimental.mcmc.UGLA, post, x_init, beta=beta), _exp_draw),
+              ("legacy", lambda: cuqi.sampler.UGLA(post, x0=x_init.copy(), maxit=MAXIT, tol=TOL, beta=beta), _legacy_draw)]
     for iface, make, mkdraw in ifaces:
         try:
             s = make()
